@@ -498,7 +498,10 @@ Proof.
   { unfold make_bundle. rewrite F1 at 1. cbn [isnil].
     assert (forallb (fun v => v_value v =? p) (firstn cut votes) = true) as ->.
     { apply forallb_forall. intros v Hv. apply N.eqb_eq. apply (GV v). eapply in_firstn; eauto. }
-    cbn [negb]. rewrite <- !firstn_map. rewrite (pack_firstn q _ _ _ _ P1). rewrite (pack_firstn q _ _ _ _ P2).
+    cbn [negb].
+    assert (A1 : map v_weight (firstn cut votes) = firstn cut (map v_weight votes)) by (symmetry; apply firstn_map).
+    assert (A2 : map e_weight (firstn cut2 eqs) = firstn cut2 (map e_weight eqs)) by (symmetry; apply firstn_map).
+    rewrite A1, A2. rewrite (pack_firstn q _ _ _ _ P1). rewrite (pack_firstn q _ _ _ _ P2).
     rewrite RW. reflexivity. }
   eexists. split; [exact MB|].
   eapply make_bundle_valid; [exact R0| | | | |exact MB].
@@ -510,4 +513,116 @@ Proof.
     + intros s Hs He. rewrite <- firstn_map in Hs, He. apply in_firstn in Hs. apply in_firstn in He. exact (Dj s Hs He).
   - rewrite <- !firstn_map. pose proof (sumN_firstn_le cut (map v_weight votes)).
     pose proof (sumN_firstn_le cut2 (map e_weight eqs)). lia.
+Qed.
+
+(* ---------- one step of the tracker against the specification ---------- *)
+Definition Good (q : option N) (h : list vote) (st : state) : Prop :=
+  Inv h st /\ reaches q (spec_eqw h) = false /\ no_two q h.
+
+Definition step_post (q : option N) (h : list vote) (x : vote) (st' : state) (o : out) : Prop :=
+  let h' := h ++ [x] in
+  match o with
+  | OPanic t =>
+      (t = "eq"%string /\ reaches q (spec_eqw h') = true) \/
+      (t = "two"%string /\ reaches q (spec_eqw h') = false /\
+       exists p p', p <> p' /\ reaches q (spec_tally h' p) = true /\ reaches q (spec_tally h' p') = true)
+  | ONone =>
+      Good q h' st' /\
+      ((forall p, reaches q (spec_tally h' p) = false) \/ (exists p, reaches q (spec_tally h p) = true))
+  | OThreshold p b =>
+      Good q h' st' /\ reaches q (spec_tally h' p) = true /\
+      (forall p', reaches q (spec_tally h p') = false) /\ bundle_valid q h' p b
+  end.
+
+Lemma no_two_of_none q h : (forall p, reaches q (spec_tally h p) = false) -> no_two q h.
+Proof. intros H p p' R. rewrite H in R. discriminate. Qed.
+
+Lemma finish_spec q h x st1 overBefore :
+  reaches q 0 = false -> Inv (h ++ [x]) st1 -> wf_votes (h ++ [x]) ->
+  reaches q (spec_eqw (h ++ [x])) = false ->
+  ((overBefore = false /\ forall p, reaches q (spec_tally h p) = false) \/
+   (overBefore = true /\ exists p, reaches q (spec_tally h p) = true)) ->
+  step_post q h x (fst (finish q overBefore st1)) (snd (finish q overBefore st1)).
+Proof.
+  intros R0 I W HE B. unfold finish.
+  pose proof (over_threshold_spec q _ _ I W HE) as OT.
+  destruct (over_threshold q st1) as [| |prop]; cbn [fst snd step_post].
+  - right. split; [reflexivity|]. split; [exact HE|exact OT].
+  - split; [split; [exact I|split; [exact HE|apply no_two_of_none; exact OT]]|]. left. exact OT.
+  - destruct OT as [RT NT]. destruct B as [[-> B]|[-> B]].
+    + pose proof (tally_reached_has_entry q _ _ HE RT) as NZ.
+      destruct (gen_bundle_ok q _ _ prop I W R0 RT NZ) as [b [GB BV]]. rewrite GB. cbn [fst snd step_post].
+      split; [split; [exact I|split; [exact HE|exact NT]]|]. split; [exact RT|]. split; [exact B|exact BV].
+    + cbn [fst snd step_post]. split; [split; [exact I|split; [exact HE|exact NT]]|]. right. exact B.
+Qed.
+
+Lemma unchanged_post q h x st :
+  Good q h st -> wf_votes h -> status_step (status_of h (v_sender x)) x = status_of h (v_sender x) ->
+  step_post q h x st ONone.
+Proof.
+  intros [I [HE NT]] W U. destruct (spec_unchanged h x U) as [Hs [Hc He]].
+  assert (HT : forall p, spec_tally (h ++ [x]) p = spec_tally h p) by (intros p; unfold spec_tally; rewrite Hc, He; reflexivity).
+  cbn [step_post]. split.
+  - split; [eapply Inv_ext; eauto|]. split; [rewrite He; exact HE|].
+    intros p p'. rewrite !HT. apply NT.
+  - pose proof (over_threshold_spec q _ _ I W HE) as OT. destruct (over_threshold q st) as [| |p0].
+    + exfalso. destruct OT as [p [p' [Hne [R R']]]]. apply Hne. apply NT; assumption.
+    + left. intros p. rewrite HT. apply OT.
+    + right. exists p0. apply OT.
+Qed.
+
+Lemma handle_step q h st x : reaches q 0 = false -> Good q h st -> wf_votes (h ++ [x]) ->
+  step_post q h x (fst (handle q st x)) (snd (handle q st x)).
+Proof.
+  intros R0 G W. pose proof (wf_votes_prefix _ _ W) as W0.
+  pose proof G as [I [HE NT]]. unfold handle.
+  rewrite (inv_equivs _ _ I). unfold spec_equiv.
+  destruct (status_of h (v_sender x)) as [|old|v1 v2] eqn:S.
+  3: { cbn [fst snd]. apply unchanged_post; auto. rewrite S. reflexivity. }
+  - (* first vote of this sender *)
+    pose proof (over_threshold_spec q _ _ I W0 HE) as OT.
+    destruct (over_threshold q st) as [| |p0] eqn:EOT.
+    { exfalso. destruct OT as [p [p' [Hne [R R']]]]. apply Hne. apply NT; assumption. }
+    + rewrite (inv_voters _ _ I). unfold spec_voter. rewrite S.
+      apply (finish_spec q h x _ false); auto.
+      * apply Inv_new_voter; auto.
+      * pose proof (spec_eqw_snoc h x) as H. rewrite S in H. cbn [status_step eq_contrib] in H.
+        replace (spec_eqw (h ++ [x])) with (spec_eqw h) by lia. exact HE.
+    + rewrite (inv_voters _ _ I). unfold spec_voter. rewrite S.
+      apply (finish_spec q h x _ true); auto.
+      * apply Inv_new_voter; auto.
+      * pose proof (spec_eqw_snoc h x) as H. rewrite S in H. cbn [status_step eq_contrib] in H.
+        replace (spec_eqw (h ++ [x])) with (spec_eqw h) by lia. exact HE.
+      * right. split; [reflexivity|]. exists p0. apply OT.
+  - (* the sender has voted before *)
+    pose proof (over_threshold_spec q _ _ I W0 HE) as OT.
+    assert (BF : exists ob, (ob = false /\ forall p, reaches q (spec_tally h p) = false) \/
+                            (ob = true /\ exists p, reaches q (spec_tally h p) = true)).
+    { destruct (over_threshold q st) as [| |p0].
+      - exfalso. destruct OT as [p [p' [Hne [R R']]]]. apply Hne. apply NT; assumption.
+      - exists false. left. split; [reflexivity|exact OT].
+      - exists true. right. split; [reflexivity|]. exists p0. apply OT. }
+    destruct (over_threshold q st) as [| |p0] eqn:EOT.
+    { exfalso. destruct OT as [p [p' [Hne [R R']]]]. apply Hne. apply NT; assumption. }
+    all: rewrite (inv_voters _ _ I); unfold spec_voter; rewrite S.
+    all: destruct (v_value old =? v_value x) eqn:EV;
+      [cbn [fst snd]; apply unchanged_post; auto; rewrite S; cbn [status_step]; rewrite EV; reflexivity|].
+    all: apply N.eqb_neq in EV.
+    all: pose proof (Inv_equivocate h st x old I W S EV) as I'; cbn zeta in I'.
+    all: pose proof (inv_eqc _ _ I') as EC; cbn [eqcount] in EC.
+    all: destruct (reaches q (wadd (eqcount st) (v_weight x))) eqn:RE;
+      [cbn [fst snd step_post]; left; split; [reflexivity|rewrite <- EC; exact RE]|].
+    all: rewrite EC in RE.
+    all: match goal with |- context [isnil ?l] => destruct (isnil l) eqn:NV end.
+    1, 3: (* no regular voter left *)
+      cbn [fst snd step_post];
+      assert (Z : forall p, spec_cnt (h ++ [x]) p = 0);
+      [ intros p; apply (spec_cnt_zero_iff _ p (proj1 W)); intros s v Sv _;
+        pose proof (inv_voters _ _ I' s) as L; unfold spec_voter in L; rewrite Sv in L;
+        cbn [voters] in L, NV; destruct (adelete (v_sender x) (voters st)); [discriminate L|discriminate NV]
+      | assert (AF : forall p, reaches q (spec_tally (h ++ [x]) p) = false)
+          by (intros p; unfold spec_tally; rewrite Z; exact RE);
+        split; [split; [exact I'|split; [exact RE|apply no_two_of_none; exact AF]]|left; exact AF] ].
+    + apply (finish_spec q h x _ false); auto.
+    + apply (finish_spec q h x _ true); auto. right. split; [reflexivity|]. exists p0. apply OT.
 Qed.
